@@ -227,6 +227,53 @@ func opRace(st *state, args []string) []string {
 		visible = func(i int) bool {
 			return pipe.DecodeFlow(&utils.Message{Src: src, Payload: v9Data(uint16(256 + i)), Received: time.Unix(2, 0)}) == nil
 		}
+	case "tplx":
+		// every worker is the first datagram of a DIFFERENT new exporter (its own source port): the registrations of
+		// two exporters at the same moment must both survive
+		prod, _ := protoproducer.CreateProtoProducer(cfg, protoproducer.CreateSamplingSystem)
+		capf := &captureFormat{}
+		pipe := utils.NewNetFlowPipe(&utils.PipeConfig{Format: capf, Producer: prod,
+			NetFlowTemplater: func(key string) netflow.NetFlowTemplateSystem {
+				ctl.park()
+				return netflow.CreateTemplateSystem()
+			}})
+		srcOf := func(i int) netip.AddrPort { return netip.AddrPortFrom(src.Addr(), uint16(4000+i)) }
+		work = func(i int) error {
+			return pipe.DecodeFlow(&utils.Message{Src: srcOf(i), Payload: v9Template(uint16(256 + i)), Received: time.Unix(1, 0)})
+		}
+		visible = func(i int) bool {
+			return pipe.DecodeFlow(&utils.Message{Src: srcOf(i), Payload: v9Data(uint16(256 + i)), Received: time.Unix(2, 0)}) == nil
+		}
+	case "ratex":
+		// the same for the producer's per-address sampling systems: every worker announces a rate from its own address
+		prod, _ := protoproducer.CreateProtoProducer(cfg, func() protoproducer.SamplingRateSystem {
+			ctl.park()
+			return protoproducer.CreateSamplingSystem()
+		})
+		argsOf := func(i int) *producer.ProduceArgs {
+			a := netip.AddrFrom4([4]byte{10, 9, 8, byte(1 + i)})
+			return &producer.ProduceArgs{Src: netip.AddrPortFrom(a, 4000), SamplerAddress: a, TimeReceived: time.Unix(1, 0)}
+		}
+		work = func(i int) error {
+			v := make([]byte, 4)
+			binary.BigEndian.PutUint32(v, uint32(100+i))
+			pkt := &netflow.IPFIXPacket{Version: 10, ObservationDomainId: 7, FlowSets: []interface{}{
+				netflow.OptionsDataFlowSet{Records: []netflow.OptionsDataRecord{{OptionsValues: []netflow.DataField{{Type: 34, Value: v}}}}}}}
+			set, err := prod.Produce(pkt, argsOf(i))
+			prod.Commit(set)
+			return err
+		}
+		visible = func(i int) bool {
+			pkt := &netflow.IPFIXPacket{Version: 10, ObservationDomainId: 7, FlowSets: []interface{}{
+				netflow.DataFlowSet{Records: []netflow.DataRecord{{Values: []netflow.DataField{{Type: 1, Value: []byte{0, 0, 0, 5}}}}}}}}
+			set, err := prod.Produce(pkt, argsOf(i))
+			defer prod.Commit(set)
+			if err != nil || len(set) != 1 {
+				return false
+			}
+			m, ok := set[0].(*protoproducer.ProtoProducerMessage)
+			return ok && m.SamplingRate == uint64(100+i)
+		}
 	case "tplbad":
 		// worker 0's datagram announces template 256 and is then refused; it is parked a second time inside
 		// AddTemplate, i.e. after the exporter's template system was published. The others announce 256+i.
